@@ -43,6 +43,9 @@ pub fn c15_states(ctx: &Ctx, thorough: bool) -> Vec<(String, StateSpec)> {
         ("other-version+foreign".into(), state(true, MetaSpec::OtherVersionOtherHash, Foreign)),
         ("other-version+other-schema".into(), state(true, MetaSpec::OtherVersionOtherHash, ForeignSchema)),
         ("near-version+other-schema".into(), state(true, MetaSpec::NearVersion, ForeignSchema)),
+        // another release killed during its first build: an index of its schema, no metadata yet
+        ("meta-missing+other-schema".into(), state(true, MetaSpec::Absent, ForeignSchema)),
+        ("meta-garbage(text)+other-schema".into(), state(true, MetaSpec::Text { text: "garbage".into() }, ForeignSchema)),
         ("other-data+foreign".into(), state(true, MetaSpec::OtherHash, Foreign)),
         ("meta-missing+complete".into(), state(true, MetaSpec::Absent, Complete)),
         ("meta-missing+foreign".into(), state(true, MetaSpec::Absent, Foreign)),
@@ -58,16 +61,21 @@ pub fn c15_states(ctx: &Ctx, thorough: bool) -> Vec<(String, StateSpec)> {
         for b in 0..len {
             v.push((format!("meta-torn({b})+foreign"), state(true, MetaSpec::CurrentPrefix { bytes: b }, Foreign)));
             v.push((format!("meta-torn({b})+complete"), state(true, MetaSpec::CurrentPrefix { bytes: b }, Complete)));
+            if b % 7 == 3 {
+                v.push((format!("meta-torn({b})+other-schema"), state(true, MetaSpec::CurrentPrefix { bytes: b }, ForeignSchema)));
+            }
         }
         for (k, t) in garbage_kinds(ctx) {
             v.push((format!("meta-garbage({k})+foreign"), state(true, MetaSpec::Text { text: t.clone() }, Foreign)));
             v.push((format!("meta-garbage({k})+complete"), state(true, MetaSpec::Text { text: t.clone() }, Complete)));
+            v.push((format!("meta-garbage({k})+other-schema"), state(true, MetaSpec::Text { text: t.clone() }, ForeignSchema)));
             v.push((format!("meta-garbage({k})+index-missing"), state(true, MetaSpec::Text { text: t }, Absent)));
         }
     } else {
         for b in [0, len / 2, len - 1] {
             v.push((format!("meta-torn({b})+foreign"), state(true, MetaSpec::CurrentPrefix { bytes: b }, Foreign)));
         }
+        v.push((format!("meta-torn({})+other-schema", len / 3), state(true, MetaSpec::CurrentPrefix { bytes: len / 3 }, ForeignSchema)));
         for (k, t) in garbage_kinds(ctx).into_iter().filter(|(k, _)| k == "text" || k == "hash-only" || k == "version-only") {
             v.push((format!("meta-garbage({k})+foreign"), state(true, MetaSpec::Text { text: t }, Foreign)));
         }
